@@ -217,3 +217,346 @@ Proof.
   destruct (G rs (cw_new (Z.of_nat (S n))) [] (cw_rel_new _ _ (Nat2Z.id _))) as (w & E & H).
   exists w. split; [exact E|]. rewrite app_nil_r in H. now apply cw_rel_totals.
 Qed.
+
+(** ** time-based window *)
+Definition one (r : res) : Z := 1.
+
+Lemma cnt_one l : cnt one l = Z.of_nat (List.length l).
+Proof. induction l as [|h t IH]; cbn [cnt List.length]; [reflexivity | change (one h) with 1; lia]. Qed.
+
+(** counts of the log entries of second [s] / of seconds [>= B] *)
+Definition bcnt (f : res -> Z) (s : Z) (log : list (Z * res)) : Z :=
+  cnt f (map snd (filter (fun e => fst e =? s) log)).
+Definition wcnt (f : res -> Z) (B : Z) (log : list (Z * res)) : Z :=
+  cnt f (map snd (filter (fun e => B <=? fst e) log)).
+
+Lemma bcnt_cons f s x r log :
+  bcnt f s ((x, r) :: log) = (if x =? s then f r else 0) + bcnt f s log.
+Proof. unfold bcnt. cbn [filter fst]. destruct (x =? s); cbn [map snd cnt]; lia. Qed.
+
+Lemma wcnt_cons f B x r log :
+  wcnt f B ((x, r) :: log) = (if B <=? x then f r else 0) + wcnt f B log.
+Proof. unfold wcnt. cbn [filter fst]. destruct (B <=? x); cbn [map snd cnt]; lia. Qed.
+
+Lemma wcnt_split f B log : wcnt f B log = bcnt f B log + wcnt f (B + 1) log.
+Proof.
+  induction log as [|[x r] t IH]; [reflexivity|].
+  rewrite !wcnt_cons, bcnt_cons, IH. generalize (f r); intro z.
+  destruct (B <=? x) eqn:E1, (x =? B) eqn:E2, (B + 1 <=? x) eqn:E3; cbv iota; lia.
+Qed.
+
+Lemma bcnt_empty f s log : (forall e, In e log -> fst e <> s) -> bcnt f s log = 0.
+Proof.
+  induction log as [|[x r] t IH]; intro H; [reflexivity|].
+  rewrite bcnt_cons, IH by (intros e He; apply H; now right).
+  specialize (H (x, r) (or_introl eq_refl)). cbn [fst] in H.
+  generalize (f r); intro z. destruct (x =? s) eqn:E; cbv iota; lia.
+Qed.
+
+Lemma wcnt_empty f B log : (forall e, In e log -> fst e < B) -> wcnt f B log = 0.
+Proof.
+  induction log as [|[x r] t IH]; intro H; [reflexivity|].
+  rewrite wcnt_cons, IH by (intros e He; apply H; now right).
+  specialize (H (x, r) (or_introl eq_refl)). cbn [fst] in H.
+  generalize (f r); intro z. destruct (B <=? x) eqn:E; cbv iota; lia.
+Qed.
+
+Definition mkb (s : Z) (log : list (Z * res)) : tbkt :=
+  {| tb_total := bcnt one s log; tb_slow := bcnt is_slow s log; tb_fail := bcnt is_fail s log |}.
+
+Lemma mkb_empty s log : (forall e, In e log -> fst e <> s) -> mkb s log = tb0.
+Proof. intro H. unfold mkb, tb0. now rewrite !bcnt_empty. Qed.
+
+(** position in the ring of the bucket [j] seconds after the first one *)
+Definition ridx (n f j : nat) : nat := if (f + j <? n)%nat then (f + j)%nat else (f + j - n)%nat.
+
+Lemma ridx_inj n f a b : (f < n)%nat -> (a < n)%nat -> (b < n)%nat -> ridx n f a = ridx n f b -> a = b.
+Proof.
+  unfold ridx. intros Hf Ha Hb.
+  destruct (Nat.ltb_spec (f + a) n), (Nat.ltb_spec (f + b) n); lia.
+Qed.
+
+Lemma ridx_lt n f j : (f < n)%nat -> (j < n)%nat -> (ridx n f j < n)%nat.
+Proof. unfold ridx. intros. destruct (Nat.ltb_spec (f + j) n); lia. Qed.
+
+Lemma succ_mod n f : (f < n)%nat -> Nat.modulo (S f) n = if (S f <? n)%nat then S f else O.
+Proof.
+  intro H. destruct (Nat.ltb_spec (S f) n) as [Hlt | Hge].
+  - now apply Nat.mod_small.
+  - assert (S f = n) by lia. subst n. apply Nat.mod_same. lia.
+Qed.
+
+Lemma nth_list_set_eq {A} i (x d : A) l : (i < List.length l)%nat -> nth i (list_set i x l) d = x.
+Proof. revert i; induction l as [|h t IH]; intros [|i] H; simpl in *; try lia; auto. apply IH. lia. Qed.
+
+Lemma nth_list_set_neq {A} k i (x d : A) l : k <> i -> nth k (list_set i x l) d = nth k l d.
+Proof.
+  revert k i; induction l as [|h t IH]; intros [|k] [|i] H; simpl; auto; try congruence.
+Qed.
+
+Lemma nth_repeat_tb0 k n : nth k (repeat tb0 n) tb0 = tb0.
+Proof. revert k; induction n as [|n IH]; intros [|k]; simpl; auto. Qed.
+
+(** the ring [w] holds, for the window starting at second [B], exactly the log's counts *)
+Definition tw_core (n : nat) (w : twin) (B : Z) (log : list (Z * res)) : Prop :=
+  List.length (tw_bkt w) = n /\ (tw_first w < n)%nat /\
+  (forall j, (j < n)%nat -> nth (ridx n (tw_first w) j) (tw_bkt w) tb0 = mkb (B + Z.of_nat j) log) /\
+  tw_total w = wcnt one B log /\ tw_slow w = wcnt is_slow B log /\ tw_fail w = wcnt is_fail B log.
+
+Lemma tw_core_evict1 n w B log :
+  tw_core n w B log -> (forall e, In e log -> fst e < B + Z.of_nat n) ->
+  tw_core n (tw_evict1 w) (B + 1) log /\ tw_begin (tw_evict1 w) = tw_begin w.
+Proof.
+  intros (Hlen & Hf & Hb & Ht & Hs & Hfl) Hub.
+  split; [|reflexivity].
+  assert (H0 : nth (tw_first w) (tw_bkt w) tb0 = mkb B log).
+  { specialize (Hb O ltac:(lia)). unfold ridx in Hb.
+    destruct (Nat.ltb_spec (tw_first w + 0) n); [|lia].
+    rewrite Nat.add_0_r, Z.add_0_r in Hb. exact Hb. }
+  unfold tw_core, tw_evict1. cbn [tw_bkt tw_first tw_total tw_slow tw_fail].
+  rewrite list_set_length, Hlen, H0, succ_mod by exact Hf.
+  cbn [mkb tb_total tb_slow tb_fail].
+  repeat split.
+  - destruct (Nat.ltb_spec (S (tw_first w)) n); lia.
+  - intros j Hj.
+    destruct (Nat.eq_dec (S j) n) as [Elast | Nlast].
+    + (* the freed bucket becomes the last second of the window *)
+      assert (E : ridx n (if (S (tw_first w) <? n)%nat then S (tw_first w) else O) j = tw_first w).
+      { unfold ridx. destruct (Nat.ltb_spec (S (tw_first w)) n).
+        - destruct (Nat.ltb_spec (S (tw_first w) + j) n); lia.
+        - destruct (Nat.ltb_spec (0 + j) n); lia. }
+      rewrite E, nth_list_set_eq by lia.
+      symmetry. apply mkb_empty. intros e He. specialize (Hub e He). lia.
+    + assert (E : ridx n (if (S (tw_first w) <? n)%nat then S (tw_first w) else O) j = ridx n (tw_first w) (S j)).
+      { unfold ridx. destruct (Nat.ltb_spec (S (tw_first w)) n).
+        - destruct (Nat.ltb_spec (S (tw_first w) + j) n), (Nat.ltb_spec (tw_first w + S j) n); lia.
+        - destruct (Nat.ltb_spec (0 + j) n), (Nat.ltb_spec (tw_first w + S j) n); lia. }
+      rewrite E, nth_list_set_neq.
+      * rewrite Hb by lia. f_equal. lia.
+      * intro C. assert (ridx n (tw_first w) O = tw_first w).
+        { unfold ridx. destruct (Nat.ltb_spec (tw_first w + 0) n); lia. }
+        rewrite <- H in C at 2. apply ridx_inj in C; lia.
+  - rewrite Ht, (wcnt_split one B). lia.
+  - rewrite Hs, (wcnt_split is_slow B). lia.
+  - rewrite Hfl, (wcnt_split is_fail B). lia.
+Qed.
+
+Lemma tw_core_loop n k : forall w B log,
+  tw_core n w B log -> (forall e, In e log -> fst e < B + Z.of_nat n) ->
+  tw_core n (tw_evict_loop k w) (B + Z.of_nat k) log /\ tw_begin (tw_evict_loop k w) = tw_begin w.
+Proof.
+  induction k as [|k IH]; intros w B log H Hub.
+  - cbn [tw_evict_loop]. rewrite Z.add_0_r. auto.
+  - cbn [tw_evict_loop].
+    destruct (tw_core_evict1 _ _ _ _ H Hub) as [H1 E1].
+    destruct (IH _ _ _ H1) as [H2 E2].
+    { intros e He. specialize (Hub e He). lia. }
+    split; [|congruence].
+    replace (B + Z.of_nat (S k)) with (B + 1 + Z.of_nat k) by lia. exact H2.
+Qed.
+
+Lemma tw_core_shift n w X Y log :
+  tw_core n w X log -> (forall e, In e log -> fst e < X) -> X <= Y -> tw_core n w Y log.
+Proof.
+  intros (Hlen & Hf & Hb & Ht & Hs & Hfl) Hub Hxy.
+  repeat split; auto.
+  - intros j Hj. rewrite Hb by exact Hj.
+    rewrite !mkb_empty; [reflexivity | |]; intros e He; specialize (Hub e He); lia.
+  - rewrite Ht, !wcnt_empty; [reflexivity | |]; intros e He; specialize (Hub e He); lia.
+  - rewrite Hs, !wcnt_empty; [reflexivity | |]; intros e He; specialize (Hub e He); lia.
+  - rewrite Hfl, !wcnt_empty; [reflexivity | |]; intros e He; specialize (Hub e He); lia.
+Qed.
+
+Lemma sec_of_mono a b : a <= b -> sec_of a <= sec_of b.
+Proof. intro H. unfold sec_of, second. apply Z.div_le_mono; lia. Qed.
+
+Lemma quot_sec now B : B <= sec_of now -> (now - B * second) ÷ second = sec_of now - B.
+Proof.
+  unfold sec_of, second. intro H.
+  assert (0 <= now - B * 1000000000).
+  { pose proof (Z.mul_div_le now 1000000000 ltac:(lia)). lia. }
+  rewrite Z.quot_div_nonneg by lia.
+  replace (now - B * 1000000000) with (now + (- B) * 1000000000) by lia.
+  rewrite Z.div_add by lia. lia.
+Qed.
+
+Lemma trunc_sec_spec now : trunc_sec now = sec_of now * second.
+Proof.
+  unfold trunc_sec, sec_of, second.
+  pose proof (Z.div_mod now 1000000000 ltac:(lia)). lia.
+Qed.
+
+(** [t]: a lower bound of every later clock reading *)
+Definition tw_rel (n : nat) (w : twin) (log : list (Z * res)) (t : Z) : Prop :=
+  exists B L, tw_core n w B log /\ tw_begin w = B * second /\
+    B <= L < B + Z.of_nat n /\ L <= sec_of t /\
+    (forall e, In e log -> fst e <= L) /\
+    (forall e, In e log -> fst e < B -> fst e + Z.of_nat n <= L).
+
+Lemma tw_rel_mono n w log t t' : tw_rel n w log t -> t <= t' -> tw_rel n w log t'.
+Proof.
+  intros (B & L & Hc & Hb & HL & Ht & H1 & H2) Hle.
+  exists B, L. pose proof (sec_of_mono _ _ Hle).
+  split; [exact Hc|]. split; [exact Hb|]. split; [exact HL|]. split; [lia|]. split; assumption.
+Qed.
+
+Lemma tw_rel_new n z t : (1 <= n)%nat -> Z.to_nat z = n -> tw_rel n (tw_new z t) [] t.
+Proof.
+  intros Hn E. exists (sec_of t), (sec_of t). unfold tw_new. rewrite E.
+  repeat split; cbn [tw_bkt tw_first tw_total tw_slow tw_fail tw_begin]; try reflexivity; try lia.
+  - apply repeat_length.
+  - intros j Hj. rewrite nth_repeat_tb0. reflexivity.
+  - apply trunc_sec_spec.
+  - intros e [].
+  - intros e [].
+Qed.
+
+Lemma tw_evict_rel n w log t now :
+  tw_rel n w log t -> t <= now ->
+  exists B', tw_core n (tw_evict now w) B' log /\ tw_begin (tw_evict now w) = B' * second /\
+    B' <= sec_of now < B' + Z.of_nat n /\
+    (forall e, In e log -> fst e <= sec_of now) /\
+    (forall e, In e log -> fst e < B' -> fst e + Z.of_nat n <= sec_of now).
+Proof.
+  intros (B & L & Hc & Hb & HL & Ht & H1 & H2) Hle.
+  pose proof (sec_of_mono _ _ Hle) as Hs.
+  assert (Hlen : List.length (tw_bkt w) = n) by apply Hc.
+  unfold tw_evict. rewrite Hb, quot_sec, Hlen by lia.
+  destruct (Z.ltb_spec (sec_of now - B) (Z.of_nat n)) as [Hlt | Hge].
+  - exists B. split; [exact Hc|]. split; [exact Hb|]. split; [lia|]. split.
+    + intros e He. specialize (H1 e He). lia.
+    + intros e He Hlt'. specialize (H2 e He Hlt'). lia.
+  - set (ev := sec_of now - B - Z.of_nat n + 1).
+    set (w1 := {| tw_total := tw_total w; tw_slow := tw_slow w; tw_fail := tw_fail w;
+                  tw_begin := B * second + ev * second; tw_first := tw_first w; tw_bkt := tw_bkt w |}).
+    assert (Hc1 : tw_core n w1 B log) by exact Hc.
+    assert (Hub : forall e, In e log -> fst e < B + Z.of_nat n).
+    { intros e He. specialize (H1 e He). lia. }
+    destruct (tw_core_loop n (Z.to_nat (Z.min ev (Z.of_nat n))) _ _ _ Hc1 Hub) as [Hc2 Eb].
+    exists (B + ev). split; [|split; [|split; [unfold ev; lia|split]]].
+    + destruct (Z.le_gt_cases ev (Z.of_nat n)) as [Hev | Hev].
+      * replace (B + ev) with (B + Z.of_nat (Z.to_nat (Z.min ev (Z.of_nat n)))) by (unfold ev in *; lia).
+        exact Hc2.
+      * apply (tw_core_shift n _ (B + Z.of_nat (Z.to_nat (Z.min ev (Z.of_nat n))))); [exact Hc2 | | lia].
+        intros e He. specialize (Hub e He). lia.
+    + rewrite Eb. unfold w1. cbn [tw_begin]. unfold second. lia.
+    + intros e He. specialize (H1 e He). lia.
+    + intros e He Hlt'. specialize (H1 e He). unfold ev in Hlt'. lia.
+Qed.
+
+Lemma rem_ridx (n f d : nat) : (f < n)%nat -> (d < n)%nat ->
+  Z.rem (Z.of_nat f + Z.of_nat d) (Z.of_nat n) = Z.of_nat (ridx n f d).
+Proof.
+  intros Hf Hd. unfold ridx.
+  destruct (Nat.ltb_spec (f + d) n) as [Hlt | Hge].
+  - rewrite Z.rem_small by lia. lia.
+  - rewrite Z.rem_mod_nonneg by lia.
+    replace (Z.of_nat f + Z.of_nat d) with (Z.of_nat (f + d - n) + 1 * Z.of_nat n) by lia.
+    rewrite Z.mod_add by lia. apply Z.mod_small. lia.
+Qed.
+
+Lemma mkb_cons_eq s r log :
+  mkb s ((s, r) :: log) =
+  {| tb_total := tb_total (mkb s log) + 1; tb_slow := tb_slow (mkb s log) + is_slow r;
+     tb_fail := tb_fail (mkb s log) + is_fail r |}.
+Proof.
+  unfold mkb. cbn [tb_total tb_slow tb_fail]. rewrite !bcnt_cons, Z.eqb_refl.
+  change (one r) with 1. f_equal; lia.
+Qed.
+
+Lemma mkb_cons_neq s x r log : x <> s -> mkb s ((x, r) :: log) = mkb s log.
+Proof.
+  intro H. unfold mkb. rewrite !bcnt_cons.
+  destruct (x =? s) eqn:E; [lia|]. reflexivity.
+Qed.
+
+Lemma tw_rel_push n w log t now r :
+  tw_rel n w log t -> t <= now ->
+  exists w', tw_push now r w = Some w' /\
+    tw_rel n w' ((sec_of now, r) :: log) now /\
+    let v := view (KTime (Z.of_nat n)) (sec_of now) ((sec_of now, r) :: log) in
+    tw_total w' = Z.of_nat (List.length v) /\ tw_slow w' = cnt is_slow v /\ tw_fail w' = cnt is_fail v.
+Proof.
+  intros Hrel Hle.
+  destruct (tw_evict_rel _ _ _ _ _ Hrel Hle) as (B' & Hc & Hb & HB & H1 & H2).
+  pose proof Hc as (Hlen & Hf & Hbk & Ht & Hs & Hfl).
+  set (S' := sec_of now) in *. set (log' := (S', r) :: log).
+  unfold tw_push. set (w1 := tw_evict now w) in *.
+  rewrite Hlen, Hb, quot_sec by (fold S'; lia). fold S'.
+  destruct (Z.eqb_spec (Z.of_nat n) 0) as [E0 | _]; [lia|].
+  set (d := Z.to_nat (S' - B')).
+  assert (Hd : (d < n)%nat) by (unfold d; lia).
+  replace (S' - B') with (Z.of_nat d) by (unfold d; lia).
+  rewrite rem_ridx by assumption.
+  destruct (Z.ltb_spec (Z.of_nat (ridx n (tw_first w1) d)) 0) as [C | _]; [lia|].
+  rewrite Nat2Z.id.
+  pose proof (ridx_lt n (tw_first w1) d Hf Hd) as Hi.
+  assert (Hagree : forall e, In e log' -> (B' <=? fst e) = (S' - Z.of_nat n <? fst e)).
+  { intros e [He | He].
+    - subst e. cbn [fst]. lia.
+    - specialize (H1 e He). specialize (H2 e He). lia. }
+  assert (Hw : forall f, wcnt f B' log' = cnt f (view (KTime (Z.of_nat n)) S' log')).
+  { intro f. unfold wcnt, view. f_equal. f_equal. apply filter_ext_in. exact Hagree. }
+  eexists; split; [reflexivity|]. split; [|cbv zeta; cbn [tw_total tw_slow tw_fail]].
+  - exists B', S'.
+    split; [|split; [reflexivity|split; [lia|split; [fold S'; lia|split]]]].
+    + unfold tw_core. cbn [tw_bkt tw_first tw_total tw_slow tw_fail].
+      rewrite list_set_length.
+      split; [exact Hlen|]. split; [exact Hf|]. split; [|split; [|split]].
+      * intros j Hj. destruct (Nat.eq_dec j d) as [-> | Nj].
+        -- rewrite nth_list_set_eq by lia. rewrite Hbk by exact Hd.
+           replace (B' + Z.of_nat d) with S' by (unfold d; lia).
+           unfold log'. now rewrite mkb_cons_eq.
+        -- rewrite nth_list_set_neq.
+           ++ rewrite Hbk by exact Hj. unfold log'. rewrite mkb_cons_neq; [reflexivity|]. unfold d in *. lia.
+           ++ intro C. apply ridx_inj in C; auto.
+      * unfold log'. rewrite wcnt_cons, Ht. destruct (Z.leb_spec B' S'); [|lia]. change (one r) with 1. lia.
+      * unfold log'. rewrite wcnt_cons, Hs. destruct (Z.leb_spec B' S'); [|lia]. lia.
+      * unfold log'. rewrite wcnt_cons, Hfl. destruct (Z.leb_spec B' S'); [|lia]. lia.
+    + intros e [He | He]; [subst e; cbn [fst]; lia | exact (H1 e He)].
+    + intros e [He | He] Hlt; [subst e; cbn [fst] in Hlt; lia | exact (H2 e He Hlt)].
+  - rewrite <- cnt_one, <- !Hw. unfold log'. rewrite !wcnt_cons, Ht, Hs, Hfl.
+    destruct (Z.leb_spec B' S'); [|lia]. change (one r) with 1. lia.
+Qed.
+
+(** pushing a whole sequence of (time, result) *)
+Fixpoint tw_pushes (w : twin) (ps : list (Z * res)) : option twin :=
+  match ps with
+  | [] => Some w
+  | (now, r) :: t => match tw_push now r w with Some w' => tw_pushes w' t | None => None end
+  end.
+
+Fixpoint mono_times (t : Z) (ps : list (Z * res)) : Prop :=
+  match ps with
+  | [] => True
+  | (now, _) :: r => t <= now /\ mono_times now r
+  end.
+
+Definition log_of (ps : list (Z * res)) : list (Z * res) := rev (map (fun p => (sec_of (fst p), snd p)) ps).
+
+(** after any sequence of pushes at non-decreasing times the ring's totals are the counts of
+    the results pushed within the last [n] seconds (as of the latest push) *)
+Lemma time_window_refines : forall (n : nat) (t0 : Z) (ps : list (Z * res)) (now : Z) (r : res),
+  (1 <= n)%nat -> mono_times t0 (ps ++ [(now, r)]) ->
+  exists w, tw_pushes (tw_new (Z.of_nat n) t0) (ps ++ [(now, r)]) = Some w /\
+    let v := view (KTime (Z.of_nat n)) (sec_of now) (log_of (ps ++ [(now, r)])) in
+    tw_total w = Z.of_nat (List.length v) /\ tw_slow w = cnt is_slow v /\ tw_fail w = cnt is_fail v.
+Proof.
+  intros n t0 ps now r Hn.
+  assert (G : forall ps w log t now r, tw_rel n w log t -> mono_times t (ps ++ [(now, r)]) ->
+            exists w', tw_pushes w (ps ++ [(now, r)]) = Some w' /\
+              let v := view (KTime (Z.of_nat n)) (sec_of now) (log_of (ps ++ [(now, r)]) ++ log) in
+              tw_total w' = Z.of_nat (List.length v) /\ tw_slow w' = cnt is_slow v /\ tw_fail w' = cnt is_fail v).
+  { clear. induction ps as [|[t1 r1] ps IH]; intros w log t now r Hrel Hm.
+    - cbn [app mono_times] in Hm. destruct Hm as [Hle _].
+      destruct (tw_rel_push _ _ _ _ _ r Hrel Hle) as (w' & E & _ & Hv).
+      exists w'. cbn [app tw_pushes]. rewrite E. split; [reflexivity|]. exact Hv.
+    - cbn [app mono_times] in Hm. destruct Hm as [Hle Hm].
+      destruct (tw_rel_push _ _ _ _ _ r1 Hrel Hle) as (w1 & E & Hrel1 & _).
+      destruct (IH _ _ _ _ _ Hrel1 Hm) as (w' & E' & Hv).
+      exists w'. cbn [app tw_pushes]. rewrite E. split; [exact E'|].
+      unfold log_of in *. cbn [map rev fst snd]. rewrite <- app_assoc. exact Hv. }
+  intro Hm.
+  destruct (G ps _ [] t0 now r (tw_rel_new n _ t0 Hn (Nat2Z.id n)) Hm) as (w & E & Hv).
+  exists w. split; [exact E|]. now rewrite app_nil_r in Hv.
+Qed.
